@@ -44,6 +44,8 @@ def exception_origin(exc):
     deepest_lib = -1
     deepest_harness = -1
     for i, fr in enumerate(tb):
+        if not os.path.isabs(fr.filename):
+            continue        # e.g. Cython frames ("h5py/_objects.pyx"): neither library nor harness source
         fn = os.path.realpath(fr.filename)
         if is_library_frame(fn):
             deepest_lib = i
